@@ -146,9 +146,9 @@ type run struct {
 	VTAChecked int
 	VTAMissing []string
 	Config     string
-	P      *ir.Program
-	Res    *rules.Result
-	Rules  []*rules.Rule
+	P          *ir.Program
+	Res        *rules.Result
+	Rules      []*rules.Rule
 }
 
 func analyse(repo string, ov map[string][]byte, tier string, props []string, onlyRule string) ([]*run, error) {
